@@ -1036,7 +1036,7 @@ fn blob_audit(c: &Ctx, tag: &str, fails: &mut Vec<String>, counters: &mut BTreeM
         }
         let stats: BTreeMap<u64, (usize, u64, u64)> = va::gc_stats_of(&v).into_iter().map(|(id, l, b, d)| (id, (l, b, d))).collect();
         let files = va::blob_files_of(&v);
-        for (id, path, _n, _u, _cpr) in &files {
+        for (id, path, rec_n, rec_u, rec_d) in &files {
             if !path.exists() {
                 fails.push(format!("C09 after `{tag}`: blob file {id} named by the version does not exist"));
                 continue;
@@ -1046,6 +1046,13 @@ fn blob_audit(c: &Ctx, tag: &str, fails: &mut Vec<String>, counters: &mut BTreeM
                 continue;
             };
             c.blob_totals.borrow_mut().insert(*id, (blobs.len(), blobs.iter().map(|b| u64::from(b.3)).sum(), blobs.iter().map(|b| u64::from(b.4)).sum()));
+            // the totals RECORDED in the blob file's metadata (what `is_dead` / `is_stale` compare the garbage with) must be the
+            // totals of the blobs actually in the file (assumption of c09_dead_iff_unreferenced / c09_stale_bytes_exact)
+            let tot: (u64, u64, u64) = (blobs.len() as u64, blobs.iter().map(|b| u64::from(b.3)).sum(), blobs.iter().map(|b| u64::from(b.4)).sum());
+            *counters.entry("blob.file_totals_audited".into()).or_default() += 1;
+            if (*rec_n, *rec_u, *rec_d) != tot {
+                fails.push(format!("C09 after `{tag}`: blob file {id}: metadata records (items, bytes, on_disk) = {:?}, the file holds {tot:?}", (rec_n, rec_u, rec_d)));
+            }
             let (mut gl, mut gb, mut gd) = (0usize, 0u64, 0u64);
             for (_k, _s, off, ulen, dlen) in &blobs {
                 if !referenced.contains(&(*id, *off)) {
@@ -1113,6 +1120,9 @@ fn run_case_inner(case: &Case, runner: &mut Runner) -> Outcome {
         ),
     };
     let flog: FLog = Arc::new(Mutex::new(vec![]));
+    let weak_alphabet = cfg.filter_seed.is_none()
+        && case.ops.iter().any(|o| matches!(o, Op::RemoveWeak(_)))
+        && !case.ops.iter().any(|o| matches!(o, Op::DropRange(..) | Op::Clear | Op::Ingest(..) | Op::AbandonIngest(..)));
     let weak_keys: Vec<K> = keys.iter().take(2).cloned().collect();
     let once_keys: Vec<K> = if cfg.filter_seed.is_some() { keys.iter().rev().take(2).cloned().collect() } else { vec![] };
     let once = Arc::new(once_keys.clone());
@@ -1473,6 +1483,18 @@ fn run_case_inner(case: &Case, runner: &mut Runner) -> Outcome {
                 }
                 bump(&mut out, "op.scan");
                 skip_checks = true;
+            }
+        }
+        // C13h / C08w: on histories of the C13 alphabet (writes incl. remove_weak, rotate, flush, compactions, moves, reopen; no ingest /
+        // drop_range / clear / compaction filter) the generator obeys the single-delete discipline, so the model state (= the real
+        // state, by digest) must satisfy the invariant `stateWeakSafeB` of c13_state_disciplined / c08_state_disciplined
+        if weak_alphabet && model_res.is_ok() && out.disagreement.is_none() {
+            if let Some(r) = runner.ask("weaksafe") {
+                if r == "ok" {
+                    bump(&mut out, "weaksafe.states_ok");
+                } else {
+                    model_res = Err(format!("the state after `{tag}` violates the WeakSafe invariant of c13_state_disciplined (model answer `{r}`): {}", canon_state(&c)));
+                }
             }
         }
         if let Err(e) = model_res {
